@@ -235,6 +235,10 @@ pub fn run(t: &[&str]) -> String {
         let mut vm = match kindr {
             "raw" => match rbpf::EbpfVmRaw::new(Some(progref)) { Ok(v) => Vm::Raw(v), Err(_) => return Ok("rejected".into()) },
             "nodata" => match rbpf::EbpfVmNoData::new(Some(progref)) { Ok(v) => Vm::NoData(v), Err(_) => return Ok("rejected".into()) },
+            // ctor=1: the program is loaded by the constructor alone, so the offsets the constructor stores are the ones executed (the buffer address
+            // stays unknown: only programs that do not reveal r1 are sent this way; the model is given a placeholder base no other region can overlap)
+            "fixed" if kv.get("ctor").map(|s| &s[..]) == Some("1") => match rbpf::EbpfVmFixedMbuff::new(Some(progref), fixoff.0, fixoff.1) {
+                Ok(v) => { *fixedbase_ref = 0x1000; Vm::Fixed(v) }, Err(_) => return Ok("rejected".into()) },
             "fixed" => {
                 let mut v = rbpf::EbpfVmFixedMbuff::new(Some(proberef), fixoff.0, fixoff.1).map_err(es)?;
                 let mut scratch = vec![0u8; 8];
@@ -966,7 +970,8 @@ pub fn gen_engines(w: &mut impl Write, thorough: bool, seed: u64) {
         if kind == "fixed" && d + 8 <= 32767 && e + 8 <= 32767 { let mut p = vec![];
             p.extend(ins(0x79, 2, 1, d as i16, 0)); p.extend(ins(0x79, 3, 1, e as i16, 0)); p.extend(ins(0xbf, 0, 3, 0, 0)); p.extend(ins(0x1f, 0, 2, 0, 0));
             if mem_len > 0 { p.extend(ins(0x71, 4, 2, 0, 0)); p.extend(ins(0x71, 5, 3, -1, 0)); p.extend(ins(0x67, 0, 0, 0, 8)); p.extend(ins(0x0f, 0, 4, 0, 0)); p.extend(ins(0x67, 0, 0, 0, 8)); p.extend(ins(0x0f, 0, 5, 0, 0)); }
-            p.extend(EXIT); writeln!(w, "exec tag=context prog={} {}", hex(&p), tail).unwrap(); }
+            p.extend(EXIT); writeln!(w, "exec tag=context prog={} {}", hex(&p), tail).unwrap();
+            writeln!(w, "exec tag=context prog={} {} ctor=1", hex(&p), tail).unwrap(); }
     } } } }
     // (3b) the base of ldabs/ldind (F39, F40): (i) the immediate of ldind is added zero-extended, so a negative immediate can be
     //      compensated by the index register to land inside the packet; (ii) with an empty packet the base is null for every engine,
